@@ -4,7 +4,7 @@ import os
 from framework import ROOT
 import props.e4common as e4
 
-PROPS = ["Nsq.Props.C14", "Nsq.Props.C14Star"]
+PROPS = ["Nsq.Props.C14", "Nsq.Props.C14Star", "Nsq.Props.C14Sched", "Nsq.Props.C14Stamps", "Nsq.Props.C14Unreg"]
 
 
 def check_stream(ctx, label, ops_path, impl_path, use_oracle=True, sample=False):
